@@ -26,13 +26,14 @@ class GhostDecl:
 
 
 class GlobDecl:
-    def __init__(self, module, name, T, inv=None, const=None, doc=""):
+    def __init__(self, module, name, T, inv=None, const=None, doc="", factory=None):
         self.module = module
         self.name = name
         self.T = T
         self.inv = inv
         self.const = const
         self.doc = doc
+        self.factory = factory      # callable(engine, state) -> value built from the module's own source
 
 
 class Contract:
@@ -171,6 +172,11 @@ class Contract:
         self.notes.append(s)
         return self
 
+    def is_quiet(self):
+        """Trusted no-op whose outcomes leave no trace in the event log."""
+        self.quiet = True
+        return self
+
     def is_pure(self):
         """Trusted: the result is a function of the arguments only."""
         self.pure = True
@@ -196,6 +202,18 @@ class Contract:
         if not hasattr(self, "at_call_"):
             self.at_call_ = []
         self.at_call_.append((callee_key, label, expr, prop))
+        return self
+
+    def free(self, name, T):
+        """Free variable of a nested function (bound like a parameter)."""
+        if not hasattr(self, "free_vars"):
+            self.free_vars = {}
+        self.free_vars[name] = T
+        return self
+
+    def heap_dicts(self, T):
+        """Empty dict displays `{}` in this function allocate heap maps of type T."""
+        self.heap_dict_T = T
         return self
 
     def touch(self, *globs):
@@ -380,8 +398,8 @@ class Schema:
     def ghost(self, name, sort, doc="", elem=None):
         self.ghosts[name] = GhostDecl(name, sort, doc, elem)
 
-    def glob(self, module, name, T, inv=None, const=None, doc=""):
-        self.globs[(module, name)] = GlobDecl(module, name, T, inv, const, doc)
+    def glob(self, module, name, T, inv=None, const=None, doc="", factory=None):
+        self.globs[(module, name)] = GlobDecl(module, name, T, inv, const, doc, factory)
 
     def mro(self, cls):
         out = []
